@@ -37,12 +37,17 @@ Fixpoint after_last {A} (p : A -> bool) (l : list A) : list A :=
 (* the code points of the current line: after the last break *)
 Definition last_line (rs : list Z) : list Z := after_last is_break rs.
 
-(* the longest prefix without \n and \r: what positionContext shows after the offset *)
+(* the longest prefix without any of the break code points: the rest of the line *)
 Fixpoint line_rest (l : list cp) : list cp :=
   match l with
   | [] => []
-  | c :: t => if (snd c =? 10) || (snd c =? 13) then [] else c :: line_rest t
+  | c :: t => if brkc c then [] else c :: line_rest t
   end.
+
+(* the code points of the line the offset is in: after the last break before the unit at the offset, up to
+   the next \n, \r, \r\n, U+2028, U+2029 or the end of the text *)
+Definition whole_line (pre cur post : list cp) : list Z :=
+  runes (after_last brkc pre ++ line_rest (cur ++ post)).
 
 (* [located cps off pre cur post]: the text cps = pre ++ cur ++ post, and cur is the unit the byte
    offset off falls into: one code point, or a \r\n pair (never split), or nothing at the very end.
@@ -58,13 +63,3 @@ Definition located (cps : list cp) (off : Z) (pre cur post : list cp) : Prop :=
   | _ => False
   end.
 
-(* the longest prefix without any of the five breaks: the rest of the line as the property text defines it *)
-Fixpoint line_rest5 (l : list cp) : list cp :=
-  match l with
-  | [] => []
-  | c :: t => if brkc c then [] else c :: line_rest5 t
-  end.
-
-(* the code points of the line the offset is in, by the five break kinds *)
-Definition whole_line (pre cur post : list cp) : list Z :=
-  runes (after_last brkc pre ++ line_rest5 (cur ++ post)).
